@@ -16,6 +16,8 @@ pub fn dynamic_type_tokinizer(tokinizer: &mut Tokinizer) {
     let mut execute_rules = true;
     while execute_rules {
         execute_rules = false;
+        #[cfg(feature = "verif")]
+        crate::verif::tick("dynamic_type_tokinizer");
 
         for (type_name, type_items) in tokinizer.config.types.iter() {
             for (_, dynamic_type) in type_items.iter() {
@@ -27,6 +29,8 @@ pub fn dynamic_type_tokinizer(tokinizer: &mut Tokinizer) {
                     let mut fields             = BTreeMap::new();
 
                     while let Some(token) = tokinizer.token_infos.get(target_token_index) {
+                        #[cfg(feature = "verif")]
+                        crate::verif::tick("dynamic_type_match");
                         target_token_index += 1;
                         if token.status.get() == TokenInfoStatus::Removed {
                             continue;
@@ -79,6 +83,8 @@ pub fn dynamic_type_tokinizer(tokinizer: &mut Tokinizer) {
                         let text_start_position = tokinizer.token_infos[start_token_index].start;
                         let text_end_position   = tokinizer.token_infos[target_token_index - 1].end;
                         execute_rules = true;
+                        #[cfg(feature = "verif")]
+                        let verif_active = crate::verif::active(&tokinizer.token_infos);
 
                         for index in start_token_index..target_token_index {
                             tokinizer.token_infos[index].status.set(TokenInfoStatus::Removed);
@@ -96,6 +102,8 @@ pub fn dynamic_type_tokinizer(tokinizer: &mut Tokinizer) {
                             original_text: "".to_string(),
                             status: Cell::new(TokenInfoStatus::Active)
                         }));
+                        #[cfg(feature = "verif")]
+                        crate::verif::rewrite("unit", type_name, verif_active, &tokinizer.token_infos);
                         break;
                     }
                 }
